@@ -385,12 +385,11 @@ func fromOrig(c common, orig any) (Manifest, error) {
 	if len(c.rawBody) == 0 {
 		c.rawBody = mj
 	}
+	// the descriptor describes the raw body, also when that was provided along with the struct
 	if _, ok := orig.(schema1.SignedManifest); !ok {
-		c.desc.Digest = c.desc.DigestAlgo().FromBytes(mj)
+		c.desc.Digest = c.desc.DigestAlgo().FromBytes(c.rawBody)
 	}
-	if c.desc.Size == 0 {
-		c.desc.Size = int64(len(mj))
-	}
+	c.desc.Size = int64(len(c.rawBody))
 	// create manifest based on type
 	switch mOrig := orig.(type) {
 	case schema1.Manifest:
